@@ -160,6 +160,17 @@ CHECKS = {
         design_ref="DESIGN.md section 5 C14",
         note="Scaled constants; with compression under encryption the authenticated bound is not stated by the spec "
              "(unauthenticated mode is checked)."),
+    "C16": dict(
+        technique="TLA+ SafeExtract model (Path::components semantics, filter, mkdir, create) checked by TLC for OnlyUnderOutdir; "
+                  "every member-name behaviour of the model extracted with the real mlar binary in a snapshotted sandbox",
+        text="TLC enumerates the member-name grammar (leading '/', '.', '..', normal, empty, 256-byte, unicode, '..a', '...', "
+             "backslash components, trailing '/'), alone and paired with colliding/prefix partners next to a benign member, "
+             "for the whole-archive, single-name and glob forms, and checks that every created path stays beneath the output "
+             "directory; each archive is built through the library and extracted by the real mlar (relative/absolute, "
+             "pre-existing or not output directory) in a nested sandbox whose arena and the file-system root are compared "
+             "before/after; archives whose members are all benign must be extracted with exact contents.",
+        design_ref="DESIGN.md section 5 C16",
+        note="Unix only; no symlinks in the output directory; names up to 2 (quick) / 3 (thorough) parts."),
 }
 
 NOT_YET = "check not built yet in this round (planned in DESIGN.md section 9); not claimed until its machinery exists"
